@@ -7,6 +7,7 @@ package c20
 
 import (
 	"fmt"
+	"math"
 	"math/rand"
 	"sort"
 	"strconv"
@@ -516,6 +517,12 @@ func (ck *checker) one(plan []any, root, other map[string]any, origin string) {
 		c.Violation("asm.Plan.Simplify", "not-an-array", faultFn(plan), cs, "[]any", fmt.Sprintf("%T", simple))
 	}
 
+	if origin == "extremes" {
+		// the integers 9223372036854775800..807 and the minimum int64 come back from the text parsers as
+		// big numbers (F-C02-maxint, pinned by the repository's tests), so the text routes of these
+		// plans would only show that finding again: direct execution, repetition and Simplify only
+		return
+	}
 	// rebuild from String() (SEN text)
 	var text string
 	if pn := mon.Guard(func() { text = p.String() }); pn != nil {
@@ -1325,10 +1332,54 @@ func (ck *checker) copies() {
 	}
 }
 
+// extremes: every function with integers at and near the int64 limits in every argument position, next
+// to small companions of the kinds the functions take.
+func (ck *checker) extremes() {
+	c := ck.c
+	ext := []any{int64(math.MaxInt64), int64(math.MinInt64), int64(math.MaxInt64 - 1), int64(1 << 62), int64(-(1 << 62))}
+	small := []any{"abcdef", int64(1), int64(-2), 1.5, "$.src.a", "$.src.s"}
+	idx := 1 << 22
+	for _, name := range names {
+		if name == "inspect" {
+			continue
+		}
+		var argLists [][]any
+		for _, e := range ext {
+			argLists = append(argLists, []any{e})
+			for _, b := range small {
+				argLists = append(argLists, []any{e, b}, []any{b, e})
+				for _, d := range small[:3] {
+					argLists = append(argLists, []any{b, e, d}, []any{b, d, e}, []any{e, b, d})
+				}
+				argLists = append(argLists, []any{b, e, ext[0]}, []any{b, e, ext[1]})
+			}
+			for _, e2 := range ext[:3] {
+				argLists = append(argLists, []any{e, e2})
+			}
+		}
+		for _, args := range argLists {
+			idx++
+			if !c.Mine(idx) {
+				continue
+			}
+			call := append([]any{name}, args...)
+			var plan []any
+			if returnsAt[name] {
+				plan = []any{"asm", call}
+			} else {
+				plan = []any{"asm", []any{"set", "$.asm.r", call}}
+			}
+			c.Cover("extreme-magnitudes")
+			ck.one(dup(plan).([]any), fixedRoot(), nil, "extremes")
+		}
+	}
+}
+
 func run(c *mon.Ctx) {
 	ck := &checker{c: c}
 	ck.matrix()
 	ck.copies()
+	ck.extremes()
 	g := &gen{r: c.Rand("c20-plans")}
 	n := c.Pick(320000, 4800000) / c.Batches
 	for i := 0; i < n; i++ {
